@@ -156,7 +156,7 @@ def replay(cases):
 
 
 # ------------------------------------------------------------------ code -> spec
-TNAMES = ["a", "b", "c", "d"]
+TNAMES = ["a", "b", "xy", "zt"]          # two ordinary names and two legal names made of coordinate letters
 U_VOID = ["IDENTITY", "RECTIFIER", "INTEGRATOR", "SHIFT_RIGHT", "SHIFT_LEFT", "SHIFT_CIRCULAR_RIGHT",
           "SHIFT_CIRCULAR_LEFT", "INVERTER", "INVERSER", "REVERSER", "DEBIASER", "SQUARE", "SQRT", "NORMALIZER",
           "DIFFERENTIATOR", "BACKWARD_FINITE_DIFF", "FORWARD_FINITE_DIFF", "CENTERED_FINITE_DIFF",
@@ -365,7 +365,7 @@ def trace_cfg(n):
     return """SPECIFICATION TSpec
 CONSTANTS
   N = %d
-  Names = {"a", "b", "c", "d"}
+  Names = {"a", "b", "xy", "zt"}
   MaxLevel = 0
   Emit = FALSE
   Ops1 = {}
@@ -408,7 +408,8 @@ def run(ctx):
     n1 = ctx.pmap_emitted(path, replay, chunk=500)
     if n1 != out.generated - 1:
         raise core.Machinery("emitted %d transitions, TLC generated %d" % (n1, out.generated - 1))
-    c = ctx.write_cfg("FT_gen3.cfg", cfg(2, ["a", "b"], 4, True, SMALL if quick else ALL, props=False))
+    # names are arbitrary strings for the specification: this run uses a legal name made of coordinate letters ("xy")
+    c = ctx.write_cfg("FT_gen3.cfg", cfg(2, ["a", "xy"], 4, True, SMALL if quick else ALL, props=False))
     path, out = ctx.tlc_emit_file("FeatureTable", c, label="emit all transitions depth 3 (%s alphabet)" % ("reduced" if quick else "full"))
     n2 = ctx.pmap_emitted(path, replay, chunk=2000)
     if n2 != out.generated - 1:
